@@ -30,7 +30,7 @@ def run_translator():
     translator's report (items extracted / fallen back)."""
     sys.path.insert(0, os.path.join(VERIF, "tools"))
     import extract_source
-    return extract_source.generate(REPO, os.path.join(LEAN, "StunVerif", "Gen", "Source.lean"))
+    return extract_source.generate(REPO, os.path.join(LEAN, "StunVerif", "Gen"))
 
 
 # ------------------------------------------------------------------------------- lean
@@ -154,7 +154,7 @@ def cargo_build(timeout=1800):
 # ------------------------------------------------------------------------------- correspondence
 
 def _worker(args):
-    fam, seed, count, tier, wdir, idx, corpus = args
+    fam, seed, count, tier, wdir, idx, corpus, parts = args
     cases = os.path.join(wdir, f"{fam}.{idx}.cases")
     verd = os.path.join(wdir, f"{fam}.{idx}.verdicts")
     t0 = time.time()
@@ -162,7 +162,7 @@ def _worker(args):
         if corpus is not None:
             p = subprocess.run([HBIN, "exec"], stdin=open(corpus), stdout=f, stderr=subprocess.PIPE, env=ENV)
         else:
-            p = subprocess.run([HBIN, "run", fam, str(seed), str(count), tier], stdout=f,
+            p = subprocess.run([HBIN, "run", fam, str(seed), str(count), tier, str(idx), str(parts)], stdout=f,
                                stderr=subprocess.PIPE, env=ENV)
     hrc = p.returncode
     herr = p.stderr.decode(errors="replace")[-500:]
@@ -219,9 +219,9 @@ def run_families(pid, fams, seed, tier, nontrivial, corpus_first=True):
     for fam, count, workers in fams:
         corpus = os.path.join(VERIF, "corpus", f"{fam}.txt")
         if corpus_first and os.path.exists(corpus):
-            jobs.append((fam, 0, 0, tier, wdir, "corpus", corpus))
+            jobs.append((fam, 0, 0, tier, wdir, "corpus", corpus, 1))
         for w in range(workers):
-            jobs.append((fam, seed * 1000 + w, count, tier, wdir, w, None))
+            jobs.append((fam, seed * 1000 + w, count, tier, wdir, w, None, workers))
     tally = Tally()
     with concurrent.futures.ThreadPoolExecutor(max_workers=NPROC) as ex:
         for res in ex.map(_worker, jobs):
